@@ -31,18 +31,20 @@ func classify(err error) string {
 	if err == nil {
 		return "halt"
 	}
-	m := err.Error()
+	// only "halt", "budget" (the harness bus's own panic) and "some error" are compared; the finer names are
+	// informative and depend on the wording of the repository's messages
+	m := strings.ToLower(err.Error())
 	switch {
-	case strings.Contains(m, "Illegal opcode"):
-		return "illegal"
-	case strings.Contains(m, "Invalid BCD"):
-		return "bcd"
 	case strings.Contains(m, "budget exhausted"):
 		return "budget"
+	case strings.Contains(m, "illegal opcode"):
+		return "illegal"
+	case strings.Contains(m, "invalid bcd"):
+		return "bcd"
 	case strings.Contains(m, "index out of range"):
 		return "mem"
 	}
-	return "other"
+	return "error"
 }
 
 // runGo executes the case on the real cpu package with a recording sparse bus
